@@ -205,9 +205,9 @@ PROPS["C01"] = {
 }
 
 PROPS["C03"] = {
-    "rules": [rules_sd.rule_coordck, rules_sd.rule_boundcmp],
+    "rules": [rules_sd.rule_coordck, rules_sd.rule_boundcmp, rules_sd.rule_last_iteration_flag],
     "level": "other",
-    "explanation": "Decides only the rejection clause of 'hyperslab access behaves as an n-d array': (COORDCK) in the nc/SD data drivers NCvar1io and NCvario every data-transfer call (hdf_xdr_NCvdata / hdf_xdr_NCv1data and their netCDF/CDF siblings) for a non-scalar variable is reached, on every path and in every loop iteration, only after NCcoordck was called and seen to succeed since the previous transfer, and in NCvario only after NCvcmaxcontig accepted the edge lengths; NCsimplerecio, which trusts its caller, is called from NCvario only, after such a check. (BOUNDCMP) inside NCcoordck the comparison of a coordinate with the dimension size sends equality to `return FALSE`, and so does a negative coordinate. Not decided (value-level): offsets (NC_varoffset), the odometer, fill values, record growth, row-major order, persistence across SDend/SDstart.",
+    "explanation": "Decides only the rejection clause of 'hyperslab access behaves as an n-d array': (COORDCK) in the nc/SD data drivers NCvar1io and NCvario every data-transfer call (hdf_xdr_NCvdata / hdf_xdr_NCv1data and their netCDF/CDF siblings) for a non-scalar variable is reached, on every path and in every loop iteration, only after NCcoordck was called and seen to succeed since the previous transfer, and in NCvario only after NCvcmaxcontig accepted the edge lengths; NCsimplerecio, which trusts its caller, is called from NCvario only, after such a check. (BOUNDCMP) inside NCcoordck the comparison of a coordinate with the dimension size sends equality to `return FALSE`, and so does a negative coordinate. (LASTITER) no loop of the library or tools computes a for-all flag (e.g. SDwritedata's 'all strides are 1') by overwriting it from the current element alone. Not decided (value-level): offsets (NC_varoffset), the odometer, fill values, record growth, row-major order, persistence across SDend/SDstart.",
     "rule_text": "instances = transfer call sites and delegations in the drivers (13), the two boundary comparisons of NCcoordck; non-trivial = needed the path-sensitive must-pass-through with call outcome inside loops",
     "trusted": [CLANG, CDB],
     "assumptions": ["SDreaddata/SDwritedata reach element I/O only through NCvario/NCvar1io/NCgenio (checked: NCgenio has no transfer call of its own)"],
@@ -242,9 +242,9 @@ PROPS["C09"] = {
 }
 
 PROPS["C10"] = {
-    "rules": [rules_attr.rule_hdirty, rules_attr.rule_grattr, rules_attr.rule_grattr_link, (lambda ctx: rules_dd.rule_F3c(ctx, {"vgroup_desc", "vdata_desc"})), _layouts("VG", "VH")],
+    "rules": [rules_attr.rule_hdirty, rules_attr.rule_grattr, rules_attr.rule_grattr_link, rules_attr.rule_attr_hdftype, (lambda ctx: rules_dd.rule_F3c(ctx, {"vgroup_desc", "vdata_desc"})), _layouts("VG", "VH")],
     "level": "other",
-    "explanation": "Decides the persistence clause of 'attributes are returned as last set' per interface: (HDIRTY) SD: every non-failing path of a public SD function on which SDIputattr -- the one routine that puts or replaces an attribute-list entry -- succeeded also sets NC_HDIRTY on the file handle (otherwise SDend does not rewrite the header and the attribute is lost); (GRATTR) GR: every non-failing path that marks an attribute's cached value changed or inserts an attribute node also sets the owner's attr_modified/gattr_modified flag (directly or through the update_flag pointer loaded with its address); (GRLINK) GRend links every attribute created in the session into its Vgroup independently of whether its data is still pending; (F3c) Vgroup/Vdata: every store to a persisted field of the in-memory record -- the attribute list and count included -- comes with `marked`; (F1) the VG and VH records, which carry the attribute lists, are written and read as the frozen format table says. Not decided: the values returned, index stability on replace, the type/count-change refusal, name/index/ref bijections.",
+    "explanation": "Decides the persistence clause of 'attributes are returned as last set' per interface: (HDIRTY) SD: every non-failing path of a public SD function on which SDIputattr -- the one routine that puts or replaces an attribute-list entry -- succeeded also sets NC_HDIRTY on the file handle (otherwise SDend does not rewrite the header and the attribute is lost); (GRATTR) GR: every non-failing path that marks an attribute's cached value changed or inserts an attribute node also sets the owner's attr_modified/gattr_modified flag (directly or through the update_flag pointer loaded with its address); (GRLINK) GRend links every attribute created in the session into its Vgroup independently of whether its data is still pending; (ATTRTYPE) every SD-layer path that creates an attribute with NC_new_attr stores the caller's HDF number type into it before returning success (NC_new_attr alone maps unsigned types to signed); (F3c) Vgroup/Vdata: every store to a persisted field of the in-memory record -- the attribute list and count included -- comes with `marked`; (F1) the VG and VH records, which carry the attribute lists, are written and read as the frozen format table says. Not decided: the values returned, index stability on replace, the type/count-change refusal, name/index/ref bijections.",
     "rule_text": "instances = SDIputattr call sites per SD function (15), attribute changes in the GR interface, functions storing into persisted Vgroup/Vdata fields, layout rows of VG/VH",
     "trusted": [CLANG, CDB, "the frozen VG/VH layouts"],
     "assumptions": ["SDIputattr is the only writer of SD attribute lists from the SD interface (NC_aput of the nc interface is not covered)"],
